@@ -188,7 +188,24 @@ class GetattrRuntimeDict:
         raise RuntimeError('getattr ' + name)
 
 
-HOSTILE = {'class_prop_raises': ClassPropRaises, 'proxy': Proxy, 'getattr_runtime': GetattrRuntimeDict,
+class HashLater:
+    """hashable when it is put into a dict, not any more afterwards"""
+    armed = False
+
+    def __hash__(self):
+        if HashLater.armed:
+            raise RuntimeError('hash')
+        return 7
+
+
+def _dict_hash_later():
+    HashLater.armed = False
+    d = {HashLater(): 1, 'b': 2}
+    HashLater.armed = True
+    return d
+
+
+HOSTILE = {'dict_hash_later': _dict_hash_later, 'class_prop_raises': ClassPropRaises, 'proxy': Proxy, 'getattr_runtime': GetattrRuntimeDict,
            'dict_len_raises': lambda: DictLenRaises(a=1), 'dict_keys_raise': lambda: DictKeysRaise(a=1, b=2),
            'slots_getattr': SlotsGetattrRuntime, 'getattribute': GetattributeRuntime, 'imposter_list': ImposterList,
            'len_raises_list': lambda: _LenRaisesList([1, 2]), 'args_raises': ArgsRaises,
@@ -381,7 +398,12 @@ def describe_heap(roots):
         d['cls'] = v if ok and isinstance(v, str) else {'raises': v if not ok else 'not text'}
         ok, v = probe(lambda: len(o))
         d['len'] = v if ok and isinstance(v, int) else {'raises': v if not ok else 'not an int'}
-        d['items'] = [[*key_text(k), idx(o[k])] for k in list(o.keys())] if t is dict else []
+        d['items'] = []
+        if t is dict:
+            # the enumeration idiom of process_dict_breadth_first; when it raises (a key whose __hash__ raises after
+            # insertion) the code's guard drops all children: the fact is then "no items"
+            ok, v = probe(lambda: [(k, o[k]) for k in list(o.keys()) if k in o])
+            d['items'] = [[*key_text(k), idx(x)] for k, x in v] if ok else []
         if t is type or t is types.ModuleType:
             # never walked into: the collector does not look for children of types and modules
             d['seq'] = {'raises': '<not walked>'}
@@ -432,6 +454,8 @@ def action_config(act, case):
     for k, key in CFG_KEYS.items():
         if act['limits'].get(k) is not None:
             cfg[key] = act['limits'][k]
+    for key, val in (act.get('raw_limits') or {}).items():
+        cfg[key] = val                     # values outside the domain of the limits (negative, not an int): recorded only
     cfg['frame_type'] = frame_type_of(case, act)
     if act.get('watches'):
         cfg['watches'] = list(act['watches'])
@@ -985,7 +1009,11 @@ class Ref:
             return []
         if k == 'dict':
             out = []
-            for key in list(o.keys()):
+            try:
+                pairs = [(key, o[key]) for key in list(o.keys()) if key in o]
+            except Exception:
+                return []
+            for key, _ in pairs:
                 name = key if isinstance(key, str) else (safe_text(key) if safe_text(key) is not None
                                                           else placeholder(key))
                 out.append((name, None, o[key]))
